@@ -56,7 +56,8 @@ func TestVerif_C10_APIHammer(t *testing.T) {
 				mutators++
 			}
 		}
-		desc := fmt.Sprintf("phase=%s programs=%v", phase, progs)
+		continual := rapid.IntRange(0, 3).Draw(rt, "continualGathering") == 0
+		desc := fmt.Sprintf("phase=%s continual=%v programs=%v", phase, continual, progs)
 		// world: FakeNet for gathering + a SimNet socket for inbound traffic and a scripted peer
 		fn := newFakeNet([]fnIface{{Name: "eth0", Up: true, Addrs: []string{"10.0.0.1"}}})
 		fn.stunServers["198.51.100.1:3478"] = "now"
@@ -67,6 +68,10 @@ func TestVerif_C10_APIHammer(t *testing.T) {
 				WithUrls([]*stun.URI{{Scheme: stun.SchemeTypeSTUN, Host: "198.51.100.1", Port: 3478, Proto: stun.ProtoTypeUDP}}),
 				WithSTUNGatherTimeout(50 * time.Millisecond),
 			},
+		}
+		if continual {
+			// continual gathering: a monitor goroutine watches the interface list and re-gathers
+			cfg.extra = append(cfg.extra, WithContinualGatheringPolicy(GatherContinually), WithNetworkMonitorInterval(300*time.Microsecond))
 		}
 		s, err := newSoloSim(cfg, []duoSockSpec{{Kind: simKindHost}, {Kind: simKindRelayish}}, []soloEpSpec{{Typ: CandidateTypeHost}, {Typ: CandidateTypeRelay}, {Typ: CandidateTypeHost}})
 		if err != nil {
@@ -284,7 +289,7 @@ func TestVerif_C10_APIHammer(t *testing.T) {
 				addViol("C10/atomicity/pair-with-stale-candidate", "after the program pair %d references a candidate that is not current (local %v remote %v)", p.id, fl, fr)
 			}
 		}
-		st.Record(vfHashStr(desc), mutators >= 2, "phase:"+phase, fmt.Sprintf("mutators:%d", min(mutators, 4)))
+		st.Record(vfHashStr(desc), mutators >= 2, "phase:"+phase, fmt.Sprintf("mutators:%d", min(mutators, 4)), fmt.Sprintf("continual-gathering:%v", continual))
 		if mutators >= 2 && st.WantSample() {
 			st.Sample(func() string { return desc })
 		}
